@@ -89,7 +89,17 @@ impl<T: Match + Ord> DirectiveSet<T> {
         // ensures that, when finding a directive to match a span or event, we
         // search the directive set in most specific first order.
         match self.directives.binary_search(&directive) {
-            Ok(i) => self.directives[i] = directive,
+            Ok(i) => {
+                // the replaced directive may have been the one that set the
+                // max level.
+                self.directives[i] = directive;
+                self.max_level = self
+                    .directives
+                    .iter()
+                    .map(|d| *d.level())
+                    .max()
+                    .unwrap_or(LevelFilter::OFF);
+            }
             Err(i) => self.directives.insert(i, directive),
         }
     }
